@@ -1,6 +1,6 @@
 (* sim_cmds.ml — replays simulator traces (harness/sim) on the extracted monitors and
    protocol automata. Input: "BEGIN n name" / "<t> <kind> <ints...>" / "END n" blocks.
-   Output, one line per scenario:  R <n> <name> <events> <verdict> | <idx>:<code> ...
+   Output, one line per scenario:  R <n> <name> <events> <verdict> | <idx>:<alarm> ... | <idx>:<rule> ... | <first observation outside the lease environment, -1 if none>
    verdict: ok | crash (no END) | hang *)
 module BZ = Z
 open Extracted
@@ -35,7 +35,7 @@ let sim (path : ostring) (out : ostring) : unit =
     List.iter (fun (i, a) -> Printf.fprintf oc " %s:%s" (string_of_coqz i) (string_of_coqz a)) alarms;
     Printf.fprintf oc " |";
     List.iter (fun (i, a) -> Printf.fprintf oc " %s:%s" (string_of_coqz i) (string_of_coqz a)) guards;
-    Printf.fprintf oc "\n";
+    Printf.fprintf oc " | %s\n" (string_of_coqz (check_env tr));
     cur := []; inside := false; hang := false
   in
   iter_lines path (fun _ line ->
